@@ -14,10 +14,11 @@ COQ_AGREE = 'agree'
 COQ_SHARD = 100
 REPLAY_KIND = 'history'
 EXHAUSTIVE = {'quick': False, 'thorough': False}
-RULE = ('seeded random histories of 5..40 operations over 1..5 masters of a versioned plain class: create, attribute assignment, '
-        'multi-column set (also empty, also values equal to the current ones), restore of a random existing version (of any master, '
-        'also one equal to the current row, also twice the same); two streams: valid (every update well typed) and failing (some updates '
-        'ill-typed, creations without the required column, restores of unknown versions, unknown masters). '
+RULE = ('seeded random histories of 5..40 operations over 1..5 masters of a versioned plain class (column a UNIQUE): create, attribute '
+        'assignment, multi-column set (also empty, also values equal to the current ones), restore of a random existing version (of any '
+        'master, also one equal to the current row, also twice the same); three streams: valid (the generator simulates the tables and '
+        'keeps only operations that go through), failing (ill-typed updates, creations without the required column, restores of unknown '
+        'versions, unknown masters) and dbrefused (as failing, plus values of a that collide with another master: the open finding). '
         'Non-trivial = at least two masters or one restore, and at least three versions; distinct = distinct operation lists.')
 EXPLANATION = ('Theorems C20_* (Coq, all histories over any number of masters) over Model/Versioning.v; correspondence: the model evaluated '
                'by vm_compute against the real SQLObject (sqlobject.versioning on sqlite) after every step: outcome, the raw master and version '
@@ -29,8 +30,8 @@ TRUSTED_BASE = [
     'main.py (_SO_setValue/set: RowUpdateSignal before validation and UPDATE); tied to the code only by the correspondence run',
     'modelled, not verified: the values Versioning.rowUpdate reads from the instance (asDict: cached attributes) equal the stored row -- '
     'one instance per master, no raw SQL, no second connection (this is property C05); sqlite returns the rows of an unordered SELECT in rowid order; '
-    'AUTOINCREMENT ids',
-    'fixture: master columns a=IntCol() b=StringCol(default=None) c=IntCol(default=7), eager (not lazyUpdate), no extraCols, no inheritance, '
+    'AUTOINCREMENT ids (a refused INSERT uses none), UNIQUE ignores NULLs and is checked per statement',
+    'fixture: master columns a=IntCol(unique=True) b=StringCol(default=None) c=IntCol(default=7), eager (not lazyUpdate), no extraCols, no inheritance, '
     'masters are never destroyed; dateArchived is not compared',
     'the correspondence harness tools/props/c20.py and the cases.v evaluation',
 ]
@@ -64,48 +65,101 @@ def rand_kw(rng, bad, need_a):
     return [[c, rand_val(rng, c, bad)] for c in cs]
 
 
+class _Sim(object):
+    """the generator's own bookkeeping of the tables, to steer the streams (not used by the oracle)"""
+
+    def __init__(self):
+        self.rows, self.vers = {}, []
+
+    def conflict(self, m, a):
+        return a is not None and any(r[0] == a for k, r in self.rows.items() if k != m)
+
+    def create(self, kw):
+        d = dict((c, v) for c, v in kw)
+        for c in range(3):
+            if c not in d and c in DEFAULT:
+                d[c] = DEFAULT[c]
+        if len(d) != 3 or not all(val_ok(c, v) for c, v in d.items()):
+            return 'fail'
+        if self.conflict(None, d[0]):
+            return 'dup'
+        self.rows[len(self.rows) + 1] = [d[0], d[1], d[2]]
+        return 'ok'
+
+    def update(self, m, pairs):
+        if m not in self.rows:
+            return 'fail'
+        if not all(val_ok(c, v) for c, v in pairs):
+            return 'fail'
+        d = dict((c, v) for c, v in pairs)
+        self.vers.append((m, list(self.rows[m])))
+        if 0 in d and self.conflict(m, d[0]):
+            return 'dup'
+        for c, v in d.items():
+            self.rows[m][c] = v
+        return 'ok'
+
+    def restore(self, vid):
+        if not (1 <= vid <= len(self.vers)):
+            return 'fail'
+        m, vals = self.vers[vid - 1]
+        return self.update(m, list(enumerate(vals)))
+
+    def copy(self):
+        x = _Sim()
+        x.rows = dict((k, list(v)) for k, v in self.rows.items())
+        x.vers = [(m, list(v)) for m, v in self.vers]
+        return x
+
+
 def gen_case(rng, stream):
-    bad = 0.2 if stream == 'failing' else 0.0
+    bad = 0.2 if stream != 'valid' else 0.0
     nm = rng.randint(1, 5)
     ops = []
-    masters, versions = 0, 0        # optimistic counters (exact in the valid stream)
-    for _ in range(rng.randint(5, 40)):
+    sim = _Sim()
+    n = rng.randint(5, 40)
+    tries = 0
+    while len(ops) < n and tries < 400:
+        tries += 1
         r = rng.random()
+        masters, versions = len(sim.rows), len(sim.vers)
         if masters == 0 or (masters < nm and r < 0.25):
-            need_a = not (stream == 'failing' and rng.random() < 0.3)
-            kw = rand_kw(rng, bad, need_a)
-            ops.append(['create', kw])
-            d = dict((c, v) for c, v in kw)
-            if 0 in d and all(val_ok(c, v) for c, v in d.items()):
-                masters += 1
-            continue
-        m = rng.randint(1, masters) if not (stream == 'failing' and rng.random() < 0.03) else masters + 1
-        if r < 0.5:
-            c = rng.randrange(3)
-            ops.append(['assign', m, c, rand_val(rng, c, bad)])
-            versions += 1 if m <= masters else 0
-        elif r < 0.75:
-            ops.append(['set', m, rand_kw(rng, bad, False) if rng.random() < 0.92 else []])
-            versions += 1 if m <= masters else 0
-        elif versions > 0:
-            vid = rng.randint(1, versions) if not (stream == 'failing' and rng.random() < 0.05) else versions + 3
-            ops.append(['restore', vid])
-            if rng.random() < 0.2:
-                ops.append(['restore', vid])
-                versions += 1 if vid <= versions else 0
-            versions += 1 if vid <= versions else 0
+            need_a = not (stream != 'valid' and rng.random() < 0.3)
+            op = ['create', rand_kw(rng, bad, need_a)]
         else:
-            c = rng.randrange(3)
-            ops.append(['assign', m, c, rand_val(rng, c, bad)])
-            versions += 1 if m <= masters else 0
+            m = rng.randint(1, masters) if not (stream != 'valid' and rng.random() < 0.03) else masters + 1
+            if r < 0.5 or (r >= 0.75 and versions == 0):
+                c = rng.randrange(3)
+                op = ['assign', m, c, rand_val(rng, c, bad)]
+            elif r < 0.75:
+                op = ['set', m, rand_kw(rng, bad, False) if rng.random() < 0.92 else []]
+            else:
+                vid = rng.randint(1, versions) if not (stream != 'valid' and rng.random() < 0.05) else versions + 3
+                op = ['restore', vid]
+        trial = sim.copy()
+        res = (trial.create(op[1]) if op[0] == 'create' else trial.restore(op[1]) if op[0] == 'restore' else
+               trial.update(op[1], [[op[2], op[3]]] if op[0] == 'assign' else op[2]))
+        if stream == 'valid' and res != 'ok':
+            continue
+        if stream == 'failing' and res == 'dup' and op[0] != 'create':
+            continue
+        sim = trial
+        ops.append(op)
+        if op[0] == 'restore' and res == 'ok' and rng.random() < 0.2 and stream != 'valid':
+            ops.append(list(op))
+            sim.restore(op[1])
     return {'stream': stream, 'ops': ops}
 
 
 def corpus():
     return [
-        # witness of the open finding: a refused update leaves a version behind
+        # witness of the fixed finding refused_update_leaves_version (6e91999)
         {'stream': 'failing', 'ops': [['create', [[0, 1]]], ['assign', 1, 0, 'x']]},
         {'stream': 'failing', 'ops': [['create', [[0, 1]]], ['set', 1, [[1, 'q'], [2, 'x']]], ['assign', 1, 0, 2], ['restore', 1]]},
+        # witnesses of the open finding db_refused_update_leaves_version: assignment, restore
+        {'stream': 'dbrefused', 'ops': [['create', [[0, 1]]], ['create', [[0, 2]]], ['assign', 2, 0, 1]]},
+        {'stream': 'dbrefused', 'ops': [['create', [[0, 1]]], ['create', [[0, 2]]], ['assign', 1, 0, 5], ['assign', 2, 0, 1], ['restore', 1],
+                                        ['assign', 1, 1, 'q']]},
         # two masters, interleaved updates, restore of an old version, restore of a version equal to the current row
         {'stream': 'valid', 'ops': [['create', [[0, 1]]], ['create', [[0, 2], [1, 'x']]], ['assign', 1, 0, 5], ['set', 2, [[2, 3], [1, 'yy']]],
                                     ['assign', 1, 1, 'q'], ['restore', 1], ['restore', 1], ['set', 2, []], ['restore', 2], ['assign', 2, 0, 2],
@@ -115,16 +169,17 @@ def corpus():
 
 def generate(rng, tier):
     n = 900 if tier == 'quick' else 15000
-    return [gen_case(rng, 'valid' if i % 4 != 3 else 'failing') for i in range(n)]
+    return [gen_case(rng, ['valid', 'valid', 'failing', 'dbrefused', 'valid'][i % 5]) for i in range(n)]
 
 
 def search_cases(rng, tier):
-    return [gen_case(rng, 'valid' if i % 3 != 2 else 'failing') for i in range(2500)]
+    return [gen_case(rng, ['valid', 'failing', 'dbrefused'][i % 3]) for i in range(2500)]
 
 
 # ---------------------------------------------------------------- implementation side
 _counter = [0]
-EXC = {'Invalid': 'invalid', 'TypeError': 'typeerror', 'KeyError': 'keyerror', 'SQLObjectNotFound': 'notfound'}
+EXC = {'Invalid': 'invalid', 'TypeError': 'typeerror', 'KeyError': 'keyerror', 'SQLObjectNotFound': 'notfound',
+       'DuplicateEntryError': 'duplicate'}
 
 
 def run_history(case):
@@ -136,7 +191,7 @@ def run_history(case):
     name = 'VerifC20M%dx%d' % (os.getpid(), _counter[0])
     M = type(SQLObject)(name, (SQLObject,), {
         '_connection': conn,
-        'a': IntCol(), 'b': StringCol(default=None), 'c': IntCol(default=7),
+        'a': IntCol(unique=True), 'b': StringCol(default=None), 'c': IntCol(default=7),
         'versions': Versioning()})
     V = M.versions.versionClass
     M.createTable()
@@ -218,7 +273,7 @@ def cval(v):
 
 
 CCOL = ['CA', 'CB', 'CC']
-CEXN = {'invalid': 'XInvalid', 'typeerror': 'XTypeError', 'keyerror': 'XKeyError', 'notfound': 'XNotFound'}
+CEXN = {'invalid': 'XInvalid', 'typeerror': 'XTypeError', 'keyerror': 'XKeyError', 'notfound': 'XNotFound', 'duplicate': 'XDuplicate'}
 
 
 def ckw(pairs):
@@ -288,7 +343,7 @@ def oracle(c, o):
         return {'what': 'no observation', 'actual': o}
     hist = {}                       # master id -> list of rows (the test's own record)
     prev_m, prev_api = [], {}
-    refused = set()                 # masters that saw a refused update (the open finding)
+    db_refused = set()              # masters one of whose updates the DATABASE refused (the open finding)
     first_known = None
     for i, (op, s) in enumerate(zip(c['ops'], o['steps'])):
         ms = dict((r[0], r[1:]) for r in s['masters'])
@@ -306,7 +361,11 @@ def oracle(c, o):
                 if cc not in d and cc in DEFAULT:
                     d[cc] = DEFAULT[cc]
             must = len(d) == 3 and all(val_ok(cc, v) for cc, v in d.items())
-            if must and out != 'done':
+            if must and d[0] is not None and any(r[0] == d[0] for r in pm.values()):
+                # UNIQUE(a): the database has to refuse the INSERT
+                if out != ['exn', 'duplicate'] or s['masters'] != prev_m:
+                    f = {'what': 'a creation violating UNIQUE(a) was not refused cleanly', 'actual': out}
+            elif must and out != 'done':
                 f = {'what': 'a valid creation raised', 'actual': out}
             elif not must and out == 'done':
                 f = {'what': 'an invalid creation succeeded', 'actual': out}
@@ -329,9 +388,18 @@ def oracle(c, o):
                     want = list(pm[target])
                     for cc, v in ([[op[2], op[3]]] if t == 'assign' else op[2]):
                         want[cc] = v
+            collide = False
+            if target is not None and must:
+                touches_a = t == 'restore' or any(cc == 0 for cc, _v in ([[op[2], op[3]]] if t == 'assign' else op[2]))
+                collide = touches_a and want[0] is not None and any(r[0] == want[0] for k, r in pm.items() if k != target)
             if target is None:
                 if out == 'done':
                     f = {'what': 'an update of something that does not exist succeeded', 'actual': out}
+            elif collide:
+                # passes validation, violates UNIQUE(a): the database has to refuse the UPDATE, the row stays
+                if out != ['exn', 'duplicate'] or ms.get(target) != pm[target]:
+                    f = {'what': 'an update violating UNIQUE(a) was not refused cleanly', 'actual': out}
+                db_refused.add(target)
             elif must and out != 'done':
                 f = {'what': 'a valid update raised', 'actual': out}
             elif not must and out == 'done':
@@ -347,8 +415,6 @@ def oracle(c, o):
                     f = {'what': 'a successful update must append exactly one version holding the previous row',
                          'expected': before + [['<new id>', target] + pm[target]], 'actual': after}
                 hist[target].append(ms[target])
-            else:
-                refused.add(target)
         # the history invariant, for every master, after every step
         if not f:
             for m in sorted(ms):
@@ -359,8 +425,8 @@ def oracle(c, o):
                 if [v[2:] for v in vs] + [ms[m]] != hist.get(m):
                     f = {'what': 'versions followed by the current row differ from the history of the row', 'master': m,
                          'expected': hist.get(m), 'actual': [v[2:] for v in vs] + [ms[m]]}
-                    if m in refused:
-                        f['known'] = 'refused_update_leaves_version'
+                    if m in db_refused:
+                        f['known'] = 'db_refused_update_leaves_version'
                     break
             if not f:
                 allv = sorted(v[0] for vs in api.values() for v in vs)
@@ -383,6 +449,8 @@ def oracle(c, o):
 
 
 def classify(c, o, f):
+    # refused_update_leaves_version is fixed (6e91999): a version left by an update that VALIDATION refused is a violation again;
+    # open: the history of a master one of whose updates the DATABASE refused (UNIQUE) after validation had passed
     return f.get('known')
 
 
@@ -411,6 +479,8 @@ def distribution(cases, obs):
             d['outcomes'][out] = d['outcomes'].get(out, 0) + 1
             if op[0] in ('assign', 'set') and out == 'invalid':
                 d['refused_updates'] += 1
+            if op[0] != 'create' and out == 'duplicate':
+                d['db_refused_updates'] = d.get('db_refused_updates', 0) + 1
             if op[0] == 'set' and not op[1 + 1]:
                 d['empty_sets'] += 1
             if op[0] == 'restore' and out == 'done' and s['masters'] == prev:
